@@ -9,7 +9,7 @@
    Zip e past now fut : the zipper invariant: the undo stack links `past` (nearest first) to `now`, the redo stack
                      links `now` to `fut`, and the current document is equivalent to `now`. *)
 From Coq Require Import List ZArith Arith Bool Lia.
-From IE Require Import Model.Undo.
+From IE Require Import Gen.UndoGen Model.Undo.
 Import ListNotations.
 
 Section Framework.
@@ -344,7 +344,7 @@ Section Framework.
 
   Lemma end_guard_chain e e2 : edit_chain e e2 -> edit_chain e (end_guard (length (ustk e)) e2).
   Proof.
-    intros (ops & HU & HC & HR). unfold end_guard. rewrite HU, app_length.
+    intros (ops & HU & HC & HR). unfold end_guard, guard_keeps. rewrite HU, app_length.
     destruct ops as [|o ops].
     - cbn [length Nat.add]. rewrite Nat.leb_refl. exists []. cbn. auto.
     - replace (length (o :: ops) + length (ustk e) <=? length (ustk e))%nat with false
@@ -366,6 +366,28 @@ Section Framework.
     intro H. injection H as <-. apply Hb in E.
     eapply edit_chain_trans; [apply (begin_guard_chain e)|]. cbn [begin_guard snd].
     apply (end_guard_chain (mkEs (cur e) (ustk e) []) e2 E).
+  Qed.
+
+
+  Lemma end_guard_length (e e2 : es) : edit_chain e e2 ->
+    (length (ustk (end_guard (length (ustk e)) e2)) <= S (length (ustk e)))%nat.
+  Proof.
+    intros (ops & HU & _ & _). unfold end_guard, guard_keeps. rewrite HU, app_length.
+    destruct (length ops + length (ustk e) <=? length (ustk e))%nat eqn:E.
+    - apply Nat.leb_le in E. rewrite HU, app_length. lia.
+    - apply Nat.leb_gt in E.
+      replace (length ops + length (ustk e) - length (ustk e))%nat with (length ops) by lia.
+      rewrite skipn_app, Nat.sub_diag, skipn_all, skipn_O. cbn [ustk app length]. lia.
+  Qed.
+
+  Lemma with_guard_chain_le (body : es -> res es) e e' :
+    (forall e1 e2, body e1 = Ok e2 -> edit_chain e1 e2) ->
+    with_guard body e = Ok e' -> edit_chain e e' /\ (length (ustk e') <= S (length (ustk e)))%nat.
+  Proof.
+    intros Hb H. split; [eapply with_guard_chain; eauto|].
+    unfold with_guard in H. cbn [begin_guard] in H.
+    destruct (body (mkEs (cur e) (ustk e) [])) as [e2| |] eqn:E; cbn [bind] in H; [|discriminate|discriminate].
+    injection H as <-. apply Hb in E. apply (end_guard_length (mkEs (cur e) (ustk e) []) e2 E).
   Qed.
 
   Lemma UChain_rev_Ulinked : forall ops a b u past, UChain (rev ops) a b -> Ulinked u past a ->
